@@ -1,13 +1,16 @@
 #!/bin/bash
-# Builds every monitor binary from /repo's working tree (tag verif), warming the Go build cache.
+# Builds the monitor binary of every check registered in MANIFEST.json from /repo's working tree
+# (tag verif; -race where the monitor asks for it), warming the Go build cache. Offline.
 set -u
 cd "$(dirname "$0")"; V="$(pwd)"; . "$V/env.sh"
 mkdir -p bin .scratch evidence replay
+ids=$(python3 -c "import json;print(' '.join(c['property_id'].lower() for c in json.load(open('MANIFEST.json'))['checks']))")
 fail=0
 cd harness
 go1.26.8 build -tags verif ./core/... || fail=1
-for d in cmd/*/; do
-  n=$(basename "$d"); R=""; [ -f "$d/RACE" ] && R="-race"
+for n in $ids; do
+  d="cmd/$n"; [ -d "$d" ] || { echo "missing $d"; fail=1; continue; }
+  R=""; [ -f "$d/RACE" ] && R="-race"
   go1.26.8 build -tags verif $R -o "$V/bin/$n" "./cmd/$n" || { echo "build failed: $n"; fail=1; }
 done
 exit $fail
